@@ -10,7 +10,8 @@ Driver for correspondence stream `kv` (property C19).  Requests:
   grev p <kv> <vals>        -> `n=… vals=ok|bad:… dom=ok|bad:i`   (dom: the model's value is in [kv[0],kv[-1]])
   refw <kv> <new>           -> `<rats>`  (sorted union, exact)
   refu <kv> <vals>          -> `n=… spans=… vals=ok|bad:…`
-  eq p1 <kv1> p2 <kv2> atol rtol -> `1|0|edge`  (edge: some component within 2⁻³⁰ relative of the threshold)
+  eq p1 <kv1> p2 <kv2> atol rtol -> `1|0|edge`  (`__eq__` as it is now: allclose in both directions;
+        edge: some component within 2⁻³⁰ relative of a threshold; `eq-former`: the one-directional predicate)
   dspl p <kv> <coeffs> <vals> <us>
         -> `kv=<rats> p=… vals=ok|bad:… ident=ok|bad:i`
         ident: Σ d_i N_{i,p-1}(u) on the shortened knot vector = Σ c_i N'_{i,p}(u), exactly, at every u
@@ -82,12 +83,15 @@ def request : P String := do
       -- error-carrying twin: midpoints over RE, merged in the order of the exact values
       let exE : List RE := (refineWith (kv.map RE.exact) (midpoints ((mesh kv).map RE.exact)))
       pure s!"n={ex.length} spans={numspans ex} vals={cmpVals exE vals}"
-  | "eq" => do
+  | "eq" | "eq-former" => do
       let p1 ← nat; let kv1 ← list rat; let p2 ← nat; let kv2 ← list rat; let atol ← rat; let rtol ← rat
-      let edge := (kv1.zip kv2).any (fun (x, y) =>
+      -- `eq`: `__eq__` as it is now (both directions of allclose); `eq-former`: the one-directional predicate
+      let near := fun (x y : Rat) =>
         let lhs := absK (x - y); let rhs := atol + rtol * absK y
-        absK (lhs - rhs) * (2 ^ 30 : Nat) ≤ rhs)
+        decide (absK (lhs - rhs) * (2 ^ 30 : Nat) ≤ rhs)
+      let edge := (kv1.zip kv2).any (fun (x, y) => near x y || (op == "eq" && near y x))
       if p1 = p2 ∧ kv1.length = kv2.length ∧ edge then pure "edge"
+      else if op == "eq" then pure (if kvEqSym atol rtol kv1 p1 kv2 p2 then "1" else "0")
       else pure (if kvEq atol rtol kv1 p1 kv2 p2 then "1" else "0")
   | "dspl" => do
       let p ← nat; let kv ← list rat; let cs ← list rat; let vals ← list rat; let us ← list rat
